@@ -2,6 +2,8 @@ package processor
 
 import (
 	"github.com/trustbloc/sidetree-core-go/pkg/api/operation"
+	"github.com/trustbloc/sidetree-core-go/pkg/api/protocol"
+	"github.com/trustbloc/sidetree-core-go/pkg/document"
 )
 
 // VHarness_C02_published_precedence: "anchored (published) operations always take precedence over
@@ -54,7 +56,16 @@ func VHarness_C02_published_precedence() {
 	if VNondetBool("storesReversed") {
 		ps, us = rev(pub), rev(unpub)
 	}
-	got, err := vResolve(ps, us)
+	// VIAOPTS=1: the unpublished operations reach Resolve through the unpublished store OR through the
+	// WithAdditionalOperations resolution option (case split)
+	var got *protocol.ResolutionModel
+	var err error
+	if VBound("VIAOPTS", 0) == 1 && VNondetBool("viaAdditionalOperations") {
+		VCover("via-additional-operations")
+		got, err = vResolve(ps, nil, document.WithAdditionalOperations(us))
+	} else {
+		got, err = vResolve(ps, us)
+	}
 	want, ok := vRefResolve(append(vSortLex(pub), vSortLex(unpub)...))
 	VAssert("C02/error-iff-model-error-with-unpublished", (err != nil) == !ok)
 	if err != nil || !ok {
